@@ -1,4 +1,409 @@
 package main
 
-func singleReplay(wd *world, bs []behaviour, st *stats) { fatal("not implemented") }
-func singleExplore(wd *world, runs int, seed int64, st *stats) { fatal("not implemented") }
+// C36: replay / exploration of SpawnSingleton under diverging leader views.
+//
+// spawnSingletonOnLocal runs inside singleflight.DoChan, i.e. on a goroutine the harness did not
+// start: that goroutine is adopted as a logical thread when it reaches cluster.ActorExists and the
+// steps AE / pre / AP of the calling thread's model program are executed by it.
+
+import (
+	"context"
+	"fmt"
+	"math/rand"
+	"sort"
+	"strconv"
+	"sync"
+	"sync/atomic"
+	"time"
+
+	"github.com/tochemey/goakt/v4/actor"
+	"github.com/tochemey/goakt/v4/verifharness/sched"
+)
+
+// SingletonActor is the singleton under test (instantiated by the caller or, for remote spawns,
+// by goakt through the type registry).
+type SingletonActor struct {
+	inst int64
+	node string
+	name string
+}
+
+var (
+	singSeq  atomic.Int64
+	singMu   sync.Mutex
+	singLive = map[int64]string{} // instance -> node between PreStart ok and PostStop
+)
+
+func singNodes() []string {
+	singMu.Lock()
+	defer singMu.Unlock()
+	out := []string{}
+	for _, n := range singLive {
+		out = append(out, n)
+	}
+	sort.Strings(out)
+	return out
+}
+
+func (a *SingletonActor) PreStart(ctx *actor.Context) error {
+	n := W.nodeOfSystem(ctx.ActorSystem())
+	W.yield("prestart", n.idx+1)
+	a.inst = singSeq.Add(1)
+	a.node = n.name
+	a.name = ctx.ActorName()
+	singMu.Lock()
+	singLive[a.inst] = n.name
+	W.w.Emit(map[string]any{"ev": "start", "n": n.name, "inst": a.inst, "id": a.name})
+	singMu.Unlock()
+	return nil
+}
+
+func (a *SingletonActor) Receive(ctx *actor.ReceiveContext) {}
+
+func (a *SingletonActor) PostStop(ctx *actor.Context) error {
+	singMu.Lock()
+	delete(singLive, a.inst)
+	W.w.Emit(map[string]any{"ev": "stop", "n": a.node, "inst": a.inst, "id": a.name})
+	singMu.Unlock()
+	return nil
+}
+
+var singleGates = []string{"cluster.Members", "cluster.ActorExists", "cluster.PutActor", "cluster.GetActor"}
+
+var singGateOfPC = map[string]string{"call": "call", "M": "M", "AE": "AE", "pre": "pre", "AP": "AP", "AG": "AG", "wait": "wait", "done": "done"}
+
+func (wd *world) registerActorKinds() {
+	ctx := context.Background()
+	for _, n := range wd.nodes {
+		if err := n.sys.Register(ctx, &SingletonActor{}); err != nil {
+			fatal(err)
+		}
+	}
+}
+
+func (wd *world) setViews(lead map[string]string) {
+	for _, n := range wd.nodes {
+		l := lead[n.name]
+		if l == "" {
+			l = wd.nodes[0].name
+		}
+		n.client.setLeader(l)
+	}
+}
+
+func (wd *world) startSingletonThreads(s *sched.Sched, name string, orgs map[string]string) {
+	ctx := context.Background()
+	for _, t := range sortedKeys(orgs) {
+		t, n := t, wd.byName[orgs[t]]
+		wd.goThread(s, t, func() {
+			ok, info := 0, ""
+			pid, err := n.sys.SpawnSingleton(ctx, name, &SingletonActor{}, actor.WithSingletonSpawnTimeout(800*time.Millisecond),
+				actor.WithSingletonSpawnWaitInterval(2*time.Millisecond), actor.WithSingletonSpawnRetries(2))
+			if err == nil {
+				ok = 1
+				if pid != nil {
+					info = pid.ID()
+				}
+			} else {
+				info = err.Error()
+			}
+			if len(info) > 120 {
+				info = info[:120]
+			}
+			wd.w.Emit(map[string]any{"ev": "ret", "t": t, "n": n.name, "ok": ok, "info": info, "id": name})
+		})
+	}
+}
+
+func (wd *world) endSingleton(name string, quiet bool) {
+	ctx := context.Background()
+	own := actorOwner(wd, name)
+	q := 0
+	if quiet {
+		q = 1
+	}
+	wd.w.Emit(map[string]any{"ev": "End", "q": q, "own": own, "live": singNodes(), "id": name})
+	for _, n := range wd.nodes {
+		_ = n.sys.Kill(ctx, name)
+	}
+	_ = wd.nodes[0].cl.RemoveActor(ctx, name)
+	// PostStop of the killed instances
+	deadline := time.Now().Add(3 * time.Second)
+	for len(singNodes()) > 0 && time.Now().Before(deadline) {
+		time.Sleep(200 * time.Microsecond)
+	}
+	singMu.Lock()
+	for k := range singLive {
+		delete(singLive, k)
+	}
+	singMu.Unlock()
+}
+
+// flight returns the adopted goroutine that runs spawnSingletonOnLocal for caller t ("" = none).
+type singRun struct {
+	s       *sched.Sched
+	flight  map[string]string // caller thread -> adopted flight goroutine
+	adopted map[string]bool
+}
+
+// stepSingleton executes one model step of caller thread t. It returns the gate reached by the program of t.
+func (wd *world) stepSingleton(r *singRun, x step) (gate, at string, err error) {
+	s := r.s
+	t := x.T
+	f := r.flight[t]
+	switch x.A {
+	case "call":
+		p, e := s.Step(t)
+		if e != nil {
+			return "", "", e
+		}
+		gate, at = wd.where(p, true)
+		return gate, at, nil
+	case "M":
+		// the caller hops to another node (same goroutine, parks at that node's Members), leads the node's spawn
+		// single-flight (blocks; a new goroutine arrives at ActorExists), or joins a flight in progress (blocks)
+		switch x.PC {
+		case "AE":
+			if e := s.Release(t); e != nil {
+				return "", "", e
+			}
+			name, ok := s.WaitAdopted(3 * time.Second)
+			if !ok {
+				if p, ok2 := s.TryAwait(t, 0); ok2 {
+					gate, at = wd.where(p, true)
+					return gate, at, nil
+				}
+				return "wait", "", nil
+			}
+			r.flight[t] = name
+			p, _ := s.Pending(name)
+			gate, at = wd.where(p, true)
+			return gate, at, nil
+		case "wait":
+			if e := s.Release(t); e != nil {
+				return "", "", e
+			}
+			if p, ok := s.TryAwait(t, 40*time.Millisecond); ok {
+				gate, at = wd.where(p, true)
+				return gate, at, nil
+			}
+			if name, ok := s.WaitAdopted(0); ok { // it leads a flight although the model says it joins one
+				r.flight[t] = name
+				return "AE", "", nil
+			}
+			return "wait", "", nil
+		default:
+			p, e := s.Step(t)
+			if e != nil {
+				return "", "", e
+			}
+			gate, at = wd.where(p, true)
+			return gate, at, nil
+		}
+	case "AE", "pre", "AP":
+		if f == "" {
+			return "", "", fmt.Errorf("no flight goroutine for %s", t)
+		}
+		if x.A == "AP" || (x.A == "AE" && x.PC != "pre") {
+			// the flight ends with this step: its goroutine runs to completion, the caller wakes up
+			if e := s.Release(f); e != nil {
+				return "", "", e
+			}
+			delete(r.flight, t)
+			p, e := s.Await(t)
+			if e != nil {
+				return "", "", e
+			}
+			gate, at = wd.where(p, true)
+			return gate, at, nil
+		}
+		p, e := s.Step(f)
+		if e != nil {
+			return "", "", e
+		}
+		gate, at = wd.where(p, true)
+		return gate, at, nil
+	case "AG":
+		if e := s.Release(t); e != nil {
+			return "", "", e
+		}
+		if p, ok := s.TryAwait(t, 2*time.Second); ok {
+			gate, at = wd.where(p, true)
+			return gate, at, nil
+		}
+		return "wait", "", nil
+	case "wake":
+		p, e := s.Await(t)
+		if e != nil {
+			return "", "", e
+		}
+		gate, at = wd.where(p, true)
+		return gate, at, nil
+	}
+	return "", "", fmt.Errorf("unknown action %s", x.A)
+}
+
+func singleReplay(wd *world, bs []behaviour, st *stats) {
+	wd.registerActorKinds()
+	for bi, b := range bs {
+		name := "s" + strconv.Itoa(bi)
+		wd.w.Raw(map[string]any{"ev": "New", "id": name, "tag": b.Tag, "orgs": b.Orgs, "lead": b.Lead})
+		wd.setViews(b.Lead)
+		s := wd.newSched(singleGates...)
+		s.AdoptAt("cluster.ActorExists", "f")
+		r := &singRun{s: s, flight: map[string]string{}}
+		wd.startSingletonThreads(s, name, b.Orgs)
+		drift := ""
+		for si, x := range b.Steps {
+			if x.T == "env" {
+				wd.byName[x.N].client.setLeader(x.M)
+				wd.w.Emit(map[string]any{"ev": "view", "n": x.N, "m": x.M, "i": si})
+				st.Steps++
+				continue
+			}
+			// the thread (or its flight goroutine) must be parked at the gate the action passes
+			who := x.T
+			if x.A == "AE" || x.A == "pre" || x.A == "AP" {
+				who = r.flight[x.T]
+			}
+			if x.A != "wake" {
+				pend, parked := s.Pending(who)
+				gate, _ := wd.where(pend, parked)
+				if who == "" || !parked || pend.Done || gate != singGateOfPC[x.A] {
+					drift = fmt.Sprintf("%s:at=%s", x.A, gate)
+					break
+				}
+			}
+			gate, at, err := wd.stepSingleton(r, x)
+			if err != nil {
+				if _, ok := err.(sched.ErrWatchdog); ok {
+					st.Watchdog++
+				}
+				drift = fmt.Sprintf("%s:step-failed:%v", x.A, err)
+				break
+			}
+			st.Steps++
+			wd.w.Emit(map[string]any{"ev": "step", "t": x.T, "a": x.A, "gate": gate, "at": at, "own": actorOwner(wd, name), "live": singNodes(), "i": si})
+			if gate != singGateOfPC[x.PC] || (at != "" && gate != "call" && gate != "done" && at != x.At) {
+				drift = fmt.Sprintf("%s->%s:reached=%s@%s:want=%s@%s", x.A, x.PC, gate, at, singGateOfPC[x.PC], x.At)
+				break
+			}
+		}
+		if drift != "" {
+			st.drift(drift)
+			wd.w.Emit(map[string]any{"ev": "drift", "what": drift, "id": name})
+			if os_debug {
+				fmt.Printf("behaviour %d drift %s\n", bi, drift)
+			}
+		}
+		s.FreeRun()
+		quiet := drain(s, sortedKeys(b.Orgs), 10*time.Second)
+		if !quiet {
+			st.NotQuiet++
+		}
+		wd.endSingleton(name, quiet)
+		wd.closeSched(s)
+		st.Behaviours++
+	}
+	wd.w.Raw(map[string]any{"ev": "New", "id": "", "tag": "", "orgs": map[string]string{}, "lead": map[string]string{}})
+}
+
+func actorOwner(wd *world, name string) string {
+	wd.st.mu.Lock()
+	defer wd.st.mu.Unlock()
+	k := "actors::" + name
+	if v, ok := wd.st.m[k]; ok {
+		return wd.st.owner(k, v)
+	}
+	return "-"
+}
+
+// singleExplore: seeded random schedules over the real gates with random view changes.
+func singleExplore(wd *world, runs int, seed int64, st *stats) {
+	wd.registerActorKinds()
+	rng := rand.New(rand.NewSource(seed))
+	for run := 0; run < runs; run++ {
+		name := "y" + strconv.Itoa(run)
+		orgs := map[string]string{}
+		nt := 2 + rng.Intn(2)
+		for i := 0; i < nt; i++ {
+			orgs["t"+strconv.Itoa(i+1)] = wd.nodes[rng.Intn(len(wd.nodes))].name
+		}
+		l0 := wd.nodes[rng.Intn(len(wd.nodes))].name
+		lead := map[string]string{}
+		for _, n := range wd.nodes {
+			lead[n.name] = l0
+		}
+		wd.w.Raw(map[string]any{"ev": "New", "id": name, "tag": "explore", "orgs": orgs, "lead": lead})
+		wd.setViews(lead)
+		s := wd.newSched(singleGates...)
+		s.AdoptAt("cluster.ActorExists", "f")
+		wd.startSingletonThreads(s, name, orgs)
+		names := sortedKeys(orgs)
+		changes := rng.Intn(4)
+		newLead := wd.nodes[rng.Intn(len(wd.nodes))].name
+		blocked := map[string]bool{}
+		idle := 0
+		for stepn := 0; stepn < 90; stepn++ {
+			for {
+				n, ok := s.WaitAdopted(200 * time.Microsecond)
+				if !ok {
+					break
+				}
+				names = append(names, n)
+			}
+			for n := range blocked {
+				if _, ok := s.TryAwait(n, 0); ok {
+					delete(blocked, n)
+				}
+			}
+			var cands []string
+			callersLeft := false
+			for _, n := range names {
+				pd, parked := s.Pending(n)
+				if _, isCaller := orgs[n]; isCaller && !(parked && pd.Done) {
+					callersLeft = true
+				}
+				if blocked[n] || !parked || pd.Done {
+					continue
+				}
+				cands = append(cands, n)
+			}
+			if !callersLeft {
+				break
+			}
+			if changes > 0 && rng.Intn(5) == 0 {
+				n := wd.nodes[rng.Intn(len(wd.nodes))]
+				n.client.setLeader(newLead)
+				wd.w.Emit(map[string]any{"ev": "view", "n": n.name, "m": newLead, "i": stepn})
+				changes--
+			}
+			if len(cands) == 0 {
+				idle++
+				if idle > 3000 {
+					break
+				}
+				time.Sleep(200 * time.Microsecond)
+				continue
+			}
+			idle = 0
+			best := cands[rng.Intn(len(cands))]
+			if err := s.Release(best); err != nil {
+				continue
+			}
+			st.Steps++
+			if _, ok := s.TryAwait(best, 40*time.Millisecond); !ok {
+				blocked[best] = true // blocked on a flight, or an adopted goroutine that ran to its end
+			}
+		}
+		s.FreeRun()
+		quiet := drain(s, sortedKeys(orgs), 10*time.Second)
+		if !quiet {
+			st.NotQuiet++
+		}
+		wd.endSingleton(name, quiet)
+		wd.closeSched(s)
+		st.Behaviours++
+	}
+	wd.w.Raw(map[string]any{"ev": "New", "id": "", "tag": "", "orgs": map[string]string{}, "lead": map[string]string{}})
+}
